@@ -301,6 +301,6 @@ var subReads = runlog.Register(&runlog.Sub[Case]{
 	Journal: true,
 })
 
-func TestPureReads(t *testing.T) { subReads.Check(t, 4000, 200000) }
+func TestPureReads(t *testing.T) { subReads.Check(t, 3000, 200000) }
 
 func TestReplay(t *testing.T) { runlog.ReplayMain(t) }
